@@ -60,7 +60,9 @@ Vals(t, depth) ==
   CASE Fam = "bigmap" /\ t.k = "map" -> BigMaps
     [] t.k = "bool" -> {[g |-> "b", b |-> TRUE], [g |-> "b", b |-> FALSE]}
     [] t.k \in IntKinds -> {Num(t.k, c) : c \in {"z", "p7", "n3"} \cup (IF Bits(t.k) >= 16 /\ depth = 0 THEN {"n200", "p300"} ELSE {}) \cup (IF Bits(t.k) = 64 /\ depth = 0 THEN {"n2_63", "p5e9"} ELSE {})}
-    [] t.k \in UintKinds -> {Num(t.k, c) : c \in {"z", "p7"} \cup (IF depth = 0 THEN {"p200"} ELSE {}) \cup (IF Bits(t.k) = 64 /\ depth = 0 THEN {"p2_63"} ELSE {})}
+    \* values with the top bit of the width set (sign vs zero extension): 200 (u8), 40000 (u16), 3000000000 (u32), 2^63 (u64)
+    [] t.k \in UintKinds -> {Num(t.k, c) : c \in {"z", "p7", "p200"} \cup (IF Bits(t.k) >= 16 THEN {"p40000"} ELSE {}) \cup (IF Bits(t.k) >= 32 /\ depth = 0 THEN {"p3e9"} ELSE {})
+                                             \cup (IF Bits(t.k) = 64 /\ depth = 0 THEN {"p2_63"} ELSE {})}
     [] t.k \in FloatKinds -> {Num(t.k, c) : c \in {"z", "nz", "f1_5"} \cup (IF depth = 0 THEN {"p7", "f1e21", "f1e20", "f1em6", "f1em7", "nan", "inf", "ninf"} ELSE {"nan"})}
     [] t.k = "str" -> {Str(c) : c \in {"se", "sx"} \cup (IF depth = 0 THEN {"sesc", "shtml", "sls", "sbad", "s12"} ELSE {"shtml"})}
     [] t.k = "num" -> {Num("num", c) : c \in {"se", "p7", "f1_5", "sx"} \cup (IF depth = 0 THEN {"big", "nz", "s12"} ELSE {})}
